@@ -1270,6 +1270,12 @@ func (bc *Blockchain) resetStateInternal(height uint32, stage stateChangeStage) 
 	case transfersReset:
 		// there's nothing to do after that, so just continue with common operations
 		// and remove state reset stage in the end.
+		if stage == transfersReset {
+			// Resumed right at the last stage: stateroot module wasn't touched by ResetState.
+			if err = bc.stateRoot.Init(height); err != nil {
+				return fmt.Errorf("failed to init MPT at height %d: %w", height, err)
+			}
+		}
 	default:
 		return fmt.Errorf("unknown state reset stage: %d", stage)
 	}
